@@ -70,7 +70,7 @@ def run(ctx):
     ctx.ob("R-SIB", "C16.2", f, "that effective sample size is computed from the posterior log-weights", len(ess) == 1, f"`{src(ess[0]) if ess else None}`")
     from .C20_reg import _chain_ends_in_raise
 
-    ctx.ob("R-SIB", "C16.2", f, "an unknown method is rejected", _chain_ends_in_raise(f.node, "method"), "")
+    ctx.ob("R-SIB", "C16.2", f, "an unknown method is rejected", _chain_ends_in_raise(f, "method"), "")
     ctx.floor("C16.1", 5)
     ctx.floor("C16.2", 8)
 
